@@ -250,8 +250,20 @@ def exec_scenario(scn):
                 stats["cancelled"] += 1
                 baton.end_op(t)
                 baton.retrace()
-            except (SimOverrun, SimDeadlock):
+            except SimOverrun:
                 stats["overrun"] = True
+                return
+            except SimDeadlock:
+                stats["deadlocks"] = stats.get("deadlocks", 0) + 1
+                if stats["cancelled"]:
+                    # an asynchronous exception can leak a lock in ways no code can
+                    # defend against (it may arrive between the end of a with-block
+                    # and its __exit__ call): after a cancellation a deadlock is
+                    # inconclusive, never a verdict
+                    stats["overrun"] = True
+                    return
+                # a schedule CPython could produce in which this call never returns
+                viol.append(("deadlock", t, j, {"op": op.get("op"), "text": (op.get("text") or op.get("markup") or "")[:200]}))
                 return
             finally:
                 baton.end_op(t)
